@@ -27,13 +27,34 @@
    at the first error, the model tokenizes everything and then consumes; the
    accepted set and the value are the same.
 
-   Numbers.  The literal is kept as exact decimal data (numlit).  A literal
-   without fraction and exponent whose magnitude is below 2^53 IS its float64
-   value: the model converts it itself (lit_plain; this covers every ordinary
-   exp / nbf / iat timestamp and "-0").  Every other literal goes to the
-   Section variable num_of_literal (strconv.ParseFloat(.,64) followed by the
-   view of model/Jwt.v: int64(value) and the shortest decimal text; None = out
-   of range), answered per literal at run time.
+   Numbers.  The literal is kept as exact decimal data (numlit).  json_parse_text
+   is generic in a number oracle num_of_literal and converts by itself only a
+   literal without fraction and exponent whose magnitude is below 2^53
+   (lit_plain; "-0" is read as the integer 0: the view of model/Jwt.v does not
+   distinguish the float -0 from 0, and neither does the harness, whose
+   canonical text of a float f is int64(f) + a residual text that is empty for
+   every integral f of magnitude below 2^53, -0 included).  Property C09 runs
+   json_parse_x num = json_parse_text (num_x num) (end of the Section Parse):
+   num_x decides INSIDE the model, by exact integer arithmetic on the decimal
+   data (lit_class), every literal - in ANY spelling: fraction digits, exponent,
+   1700003600.0, 17000036e2, 1.7000036E+9, 100e-2, 0e99, 1e-400 - whose
+   rational value is an integer of magnitude below 2^53 (exactly representable,
+   so the correctly rounded float64 is that integer and int64 of it is that
+   integer), whose value rounds to +-0 (0 < |value| <= 2^-1075: accepted by
+   strconv.ParseFloat without error, read as 0), or whose value rounds to
+   +-Inf (|value| >= 2^1024 - 2^970: strconv.ParseFloat reports a range error
+   and protojson refuses the text).  Only the REST - values that are not
+   integers, and integers of magnitude >= 2^53 below the overflow bound - goes
+   to the oracle num (strconv.ParseFloat(.,64) followed by the view of
+   model/Jwt.v: int64(value) and the shortest decimal text), answered per
+   literal at run time.  There the model FOLLOWS the oracle; in particular
+   int64(f) for |f| >= 2^63 is whatever the Go compiler's conversion yields on
+   the platform of the run (the language leaves it implementation-defined), and
+   a literal whose integer part has more than 800 digits is left to the oracle
+   altogether, because strconv.ParseFloat is NOT correctly rounded there (its
+   800-digit decimal buffer drops the excess integer digits without adjusting
+   the decimal point: "17000036" ++ 900 zeros ++ "1e-899" is read as
+   1.7000036e-100; go1.23.5).
 
    json_print_text is a printer for the round-trip theorem (compact, names in
    list order; it is NOT protojson's output format, which is deliberately
@@ -426,6 +447,72 @@ Section Parse.
     | None => None
     end.
 End Parse.
+
+(* ================= the number literals the model decides itself ================= *)
+(* The rational value of a literal is  (-1)^neg * lit_num l / lit_den l  with
+     lit_mant  = the integer written by the integer digits followed by the fraction digits
+     lit_exp10 = (the signed exponent, 0 when absent) - (number of fraction digits)
+     lit_num   = lit_mant * 10^max(lit_exp10, 0)      lit_den = 10^max(-lit_exp10, 0).
+   float64 facts used (IEEE 754 binary64, round to nearest even, which is what a
+   correctly rounded strconv.ParseFloat returns):
+     an integer of magnitude < 2^53 is representable: the result is that integer;
+     0 < |v| <= 2^-1075 rounds to +-0 (the tie goes to the even mantissa 0): no error;
+     |v| >= 2^1024 - 2^970 = f64_over rounds to +-Inf: ParseFloat reports ErrRange. *)
+Inductive numclass :=
+| NCInt (z : Z)      (* the float64 is the integer z, |z| < 2^53 (z = 0 also for -0 and for underflow) *)
+| NCOverflow         (* out of the float64 range: the text is refused *)
+| NCOracle.          (* anything else: the oracle answers *)
+
+Definition lit_digits (l : numlit) : bytes := nl_int l ++ nl_frac l.
+Definition lit_mant (l : numlit) : N := dec_val (lit_digits l).
+Definition exp_val (ex : option (bool * bytes)) : Z :=
+  match ex with
+  | None => 0%Z
+  | Some (neg, ds) => if neg then (- Z.of_N (dec_val ds))%Z else Z.of_N (dec_val ds)
+  end.
+Definition lit_exp10 (l : numlit) : Z := (exp_val (nl_exp l) - Z.of_nat (length (nl_frac l)))%Z.
+Definition lit_num (l : numlit) : N := lit_mant l * 10 ^ Z.to_N (lit_exp10 l).
+Definition lit_den (l : numlit) : N := 10 ^ Z.to_N (- lit_exp10 l).
+Definition lit_sign (l : numlit) (v : N) : Z := if nl_neg l then (- Z.of_N v)%Z else Z.of_N v.
+
+(* the smallest magnitude that rounds to infinity: halfway between the largest
+   finite float64 (2^1024 - 2^971) and 2^1024 *)
+Definition f64_over : N := 2 ^ 1024 - 2 ^ 970.
+(* the decimal buffer of strconv (800 digits) is exact for the integer part up to here *)
+Definition max_int_digits : nat := 800.
+
+(* Two guards keep the powers of ten small: a non-zero literal with exponent
+   above 400 is >= 10^401 > f64_over; one whose exponent is below
+   -(number of digits + 400) is < 10^-400 < 2^-1075.  Between them 10^|e| has
+   at most (number of digits + 401) digits. *)
+Definition lit_class (l : numlit) : numclass :=
+  if (max_int_digits <? length (nl_int l))%nat then NCOracle
+  else
+    let m := lit_mant l in
+    if m =? 0 then NCInt 0
+    else
+      let e := lit_exp10 l in
+      if (400 <? e)%Z then NCOverflow
+      else if (e <? - (Z.of_nat (length (lit_digits l)) + 400))%Z then NCInt 0
+      else
+        let a := m * 10 ^ Z.to_N e in
+        let b := 10 ^ Z.to_N (- e) in
+        if (a mod b =? 0) && (a / b <? two53) then NCInt (lit_sign l (a / b))
+        else if N.shiftl a 1075 <=? b then NCInt 0
+        else if f64_over * b <=? a then NCOverflow
+        else NCOracle.
+
+(* the number oracle property C09 runs with: num is consulted for NCOracle only *)
+Definition num_x (num : numlit -> option (Z * bytes)) (l : numlit) : option (Z * bytes) :=
+  match lit_class l with
+  | NCInt z => Some (z, [])
+  | NCOverflow => None
+  | NCOracle => num l
+  end.
+
+(* structpb.Struct.UnmarshalJSON as property C09 models it *)
+Definition json_parse_x (num : numlit -> option (Z * bytes)) : bytes -> option fields :=
+  json_parse_text (num_x num).
 
 (* ================= the value side: tokens of a value, its shape ================= *)
 Fixpoint join_comma (ls : list (list token)) : list token :=
